@@ -344,6 +344,24 @@ type ErrV struct{}
 
 func (e *Engine) callContract(st *State, fr *Frame, fc *FuncContract, fn *ssa.Function, key string, args []Val, in ssa.Value) ([]*State, *Outcome) {
 	e.contractCalls[key] = true
+	if fc.Flags["getter"] {
+		// a pure observer of an opaque value: an uninterpreted function of the receiver and the arguments
+		recv, ok := args[0].(*Term)
+		if !ok {
+			unsupported("getter contract %s on %s", fc.Target, valString(args[0]))
+		}
+		var resT types.Type
+		if call, ok := in.(*ssa.Call); ok {
+			if rt := call.Common().Signature().Results(); rt.Len() == 1 {
+				resT = rt.At(0).Type()
+			}
+		}
+		if resT == nil {
+			unsupported("getter contract %s must have exactly one result", fc.Target)
+		}
+		e.bindResult(fr, in, []Val{e.ufApply(st, "get_"+shortTarget(fc.Target), resT, append([]Val{recv}, args[1:]...))})
+		return nil, nil
+	}
 	var resTuple *types.Tuple
 	var paramNames []string
 	if fn != nil {
@@ -565,7 +583,12 @@ func (e *Engine) enterBlock(st *State, fr *Frame) ([]*State, bool) {
 		if v.S == SInt {
 			g = fmt.Sprintf("(and (>= %s 0) (< %s %s))", old.T, v.T, old.T)
 		} else {
-			g = fmt.Sprintf("(bvult %s %s)", v.T, old.T)
+			if v.Signed && old.Signed {
+				// signed variant (Go int): bounded below by 0 and strictly decreasing
+				g = fmt.Sprintf("(and (bvsge %s %s) (bvslt %s %s))", old.T, bvLit(0, v.S.BVWidth()), v.T, old.T)
+			} else {
+				g = fmt.Sprintf("(bvult %s %s)", v.T, old.T)
+			}
 		}
 		e.oblige(st, base+".decreases", "loop-decreases", g, "loop variant strictly decreases (unsigned 64-bit)", fr.fc.Props)
 	}
